@@ -56,9 +56,12 @@ theorem C14_start_beacon (data : List UInt8) (hd : data.length ≤ 64) (iv : Nat
     rcases hm with e | e <;> simp [e]
   have hf1 : ¬h.format ≠ Gen.SX127X_FIXED := by simp [hfmt]
   have hf2 : ¬data.length > Gen.FIFO_SIZE_FSK := by have : Gen.FIFO_SIZE_FSK = 64 := rfl; omega
+  have hf2' : ¬(data.length > Gen.FIFO_SIZE_FSK ∨ data.length > h.packet.length) := by
+    have : Gen.FIFO_SIZE_FSK = 64 := rfl
+    omega
   unfold fskOokTxStartBeacon
   simp only [wp_bind, wp_checkFskOok, if_neg hgate, wp_getH]
-  rw [wp_ite, if_neg hf1, wp_ite, if_neg hf2]
+  rw [wp_ite, if_neg hf1, wp_ite, if_neg hf2']
   simp only [hbt]
   simp only [wp_bind, wp_swrite, writeN_one, show Gen.REGTIMER1COEF = 0x39 from rfl, show Gen.REGTIMER2COEF = 0x3a from rfl,
     show Gen.REGTIMERRESOL = 0x38 from rfl, show Gen.REGFIFOTHRESH = 0x35 from rfl]
@@ -77,7 +80,9 @@ theorem C14_start_beacon (data : List UInt8) (hd : data.length ≤ 64) (iv : Nat
   have h3 : ¬h.format = Gen.SX127X_VARIABLE := by rw [hfmt]; decide
   unfold fskOokTxSetForTransmission
   simp only [wp_bind, wp_checkFskOok, if_neg hgate, wp_getH]
-  rw [wp_ite, if_neg h1, wp_ite, if_neg h2, wp_ite, if_neg h3]
+  have h4 : ¬(data.length + (if h.format = Gen.SX127X_VARIABLE then 1 else 0) > h.packet.length) := by
+    rw [if_neg h3]; omega
+  rw [wp_ite, if_neg h1, wp_ite, if_neg h2, wp_ite, if_neg h4, wp_ite, if_neg h3]
   unfold packetCopy fskOokTxWithRemaining
   simp only [wp_bind, wp_getH, wp_modH]
   have hn16 : (UInt16.ofNat data.length).toNat = data.length := by
